@@ -646,6 +646,29 @@ theorem schedulePrefix_not_later (I D cur : Nat) (order : Key) (S : Entries) (p 
     apply (takeOver_not_later I cur (slotT I order p) _).2
     exact List.mem_map.mpr ⟨e, List.mem_filter.mpr ⟨he, hp⟩, rfl⟩
 
+/-- … so the real schedule stays prefix-free and keeps every key covered, call after call -/
+theorem schedulePrefix_prefixFree (I D cur : Nat) (order : Key) (S : Entries) (p : Key) (just : Bool)
+    (h : PrefixFree (S.map (·.1))) : PrefixFree ((schedulePrefix I D cur order S p just).map (·.1)) := by
+  rw [schedulePrefix_keys]; exact schedule_prefixFree _ p h
+
+theorem schedulePrefix_covers (I D cur : Nat) (order : Key) (S : Entries) (p k : Key) (just : Bool)
+    (h : covered (S.map (·.1)) k = true ∨ isPre p k = true) :
+    covered ((schedulePrefix I D cur order S p just).map (·.1)) k = true := by
+  rw [schedulePrefix_keys]
+  rcases h with h | h
+  · exact (schedule_covers _ p k).1 h
+  · exact (schedule_covers _ p k).2 h
+
+/-- the cap "current offset + interval + max delay" on the slot of a region that was just reprovided never binds: a slot
+    is an offset inside the cycle (as written the code cannot delay a grown region's slot by less than its own slot) -/
+theorem just_cap_never_binds (I D cur : Nat) (order p : Key) (hI : I > 0) (ho : maxPrefixSize ≤ order.length) :
+    min (slotT I order p) (cur + I + D) = slotT I order p := by
+  have : slotT I order p < I := by
+    unfold slotT
+    apply slot_lt_interval I order _ hI
+    rw [List.length_take]; omega
+  omega
+
 theorem addRecent_mem (R : List Key) (q x : Key) (h : x ∈ addRecent R q) : x ∈ R ∨ x = q := by
   unfold addRecent at h
   split at h
@@ -689,5 +712,140 @@ theorem loadRecent_sound (I D now cur : Nat) (S : Entries) (h : Hist) (q : Key)
 example : (loadRecent 3600 300 10926 126 [([false, false, false], 0)] { entries := [(7425, [false, false, false, true])] }).2 = [] ∧
     (loadRecent 3600 300 10926 126 [([false, false, false, true], 225)] { entries := [(7425, [false, false, false, true])] }).2
       = [[false, false, false, true]] := by decide
+
+end KadDHT.C17
+
+/-! ### grouping keys by scheduled prefix (`groupAndScheduleKeysByPrefix`, model `SchedT.groupKeys`) -/
+namespace KadDHT.C17
+open KadDHT KadDHT.Sched KadDHT.Schedule KadDHT.SchedT
+
+/-- every key of a group lies under the group's prefix, and every key met so far is in a group -/
+def GInv (g : GSt) : Prop :=
+  (∀ e ∈ g.groups, ∀ k ∈ e.2, isPre e.1 k = true) ∧ (∀ k ∈ g.seen, ∃ e ∈ g.groups, k ∈ e.2)
+
+theorem isPre_take_self (k : Key) (n : Nat) : isPre (k.take n) k = true :=
+  (isPre_iff_prefix _ _).2 (List.take_prefix n k)
+
+theorem regroup_inv (g : GSt) (k pfx : Key) (h : GInv g) (hp : isPre pfx k = true) :
+    GInv { g with seen := g.seen ++ [k],
+                  groups := (g.groups.filter fun e => !isPre pfx e.1) ++
+                    [(pfx, [k] ++ ((g.groups.filter fun e => isPre pfx e.1).map (·.2)).flatten)] } := by
+  obtain ⟨h1, h2⟩ := h
+  constructor
+  · intro e he x hx
+    rcases List.mem_append.mp he with he | he
+    · exact h1 e (List.mem_filter.mp he).1 x hx
+    · have : e = (pfx, [k] ++ ((g.groups.filter fun e => isPre pfx e.1).map (·.2)).flatten) := by simpa using he
+      subst this
+      rcases List.mem_append.mp hx with hx | hx
+      · have : x = k := by simpa using hx
+        subst this; exact hp
+      · obtain ⟨l, hl, hxl⟩ := List.mem_flatten.mp hx
+        obtain ⟨e', he', rfl⟩ := List.mem_map.mp hl
+        have hf := List.mem_filter.mp he'
+        exact isPre_trans (by simpa using hf.2) (h1 e' hf.1 x hxl)
+  · intro x hx
+    rcases List.mem_append.mp hx with hx | hx
+    · obtain ⟨e, he, hxe⟩ := h2 x hx
+      by_cases hb : isPre pfx e.1 = true
+      · refine ⟨(pfx, [k] ++ ((g.groups.filter fun e => isPre pfx e.1).map (·.2)).flatten), by simp, ?_⟩
+        apply List.mem_append_right
+        exact List.mem_flatten.mpr ⟨e.2, List.mem_map.mpr ⟨e, List.mem_filter.mpr ⟨he, hb⟩, rfl⟩, hxe⟩
+      · exact ⟨e, List.mem_append_left _ (List.mem_filter.mpr ⟨he, by simpa using hb⟩), hxe⟩
+    · have : x = k := by simpa using hx
+      subst this
+      exact ⟨(pfx, [x] ++ ((g.groups.filter fun e => isPre pfx e.1).map (·.2)).flatten), by simp, by simp⟩
+
+theorem groupKey_inv (I D cur cached : Nat) (valid doSched : Bool) (order : Key) (g : GSt) (k : Key) (h : GInv g) :
+    GInv (groupKey I D cur cached valid doSched order g k) ∧ k ∈ (groupKey I D cur cached valid doSched order g k).seen := by
+  unfold groupKey
+  by_cases hs : g.seen.contains k = true
+  · simp only [hs, if_true]; exact ⟨h, by simpa using hs⟩
+  · simp only [hs]
+    obtain ⟨h1, h2⟩ := h
+    cases hf : g.groups.find? (fun e => isPre e.1 k) with
+    | some e =>
+      have hek : isPre e.1 k = true := by simpa using List.find?_some hf
+      have hem : e ∈ g.groups := List.mem_of_find?_eq_some hf
+      simp only [hf]
+      refine ⟨⟨?_, ?_⟩, by simp⟩
+      · intro x hx y hy
+        obtain ⟨x0, hx0, rfl⟩ := List.mem_map.mp hx
+        by_cases hq : (x0.1 == e.1) = true
+        · simp only [hq, if_true] at hy ⊢
+          rcases List.mem_append.mp hy with hy | hy
+          · exact h1 x0 hx0 y hy
+          · have : y = k := by simpa using hy
+            subst this
+            have : x0.1 = e.1 := by simpa using hq
+            rw [this]; exact hek
+        · simp only [hq] at hy ⊢; exact h1 x0 hx0 y hy
+      · intro y hy
+        rcases List.mem_append.mp hy with hy | hy
+        · obtain ⟨x0, hx0, hyx⟩ := h2 y hy
+          by_cases hq : (x0.1 == e.1) = true
+          · exact ⟨(x0.1, x0.2 ++ [k]), List.mem_map.mpr ⟨x0, hx0, by simp [hq]⟩, List.mem_append_left _ hyx⟩
+          · exact ⟨x0, List.mem_map.mpr ⟨x0, hx0, by simp [hq]⟩, hyx⟩
+        · have : y = k := by simpa using hy
+          subst this
+          exact ⟨(e.1, e.2 ++ [y]), List.mem_map.mpr ⟨e, hem, by simp⟩, by simp⟩
+    | none =>
+      simp only [hf]
+      cases hS : g.S.find? (fun e => isPre e.1 k) with
+      | some e =>
+        have hek : isPre e.1 k = true := by simpa using List.find?_some hS
+        simp only [hS]
+        exact ⟨regroup_inv _ k e.1 ⟨h1, h2⟩ hek, by simp⟩
+      | none =>
+        simp only [hS]
+        exact ⟨regroup_inv _ k _ ⟨h1, h2⟩ (isPre_take_self k _), by simp⟩
+
+theorem groupKeys_fold (I D cur cached : Nat) (valid doSched : Bool) (order : Key) (keys : List Key) :
+    ∀ (g : GSt), GInv g →
+      GInv (keys.foldl (groupKey I D cur cached valid doSched order) g) ∧
+      (∀ k, k ∈ g.seen ∨ k ∈ keys → k ∈ (keys.foldl (groupKey I D cur cached valid doSched order) g).seen) := by
+  induction keys with
+  | nil => intro g h; exact ⟨h, fun k hk => by simpa using hk⟩
+  | cons k rest ih =>
+    intro g h
+    have ⟨hi, hk⟩ := groupKey_inv I D cur cached valid doSched order g k h
+    have ⟨hr, hs⟩ := ih _ hi
+    refine ⟨hr, ?_⟩
+    intro x hx
+    apply hs
+    rcases hx with hx | hx
+    · left
+      -- seen only grows
+      unfold groupKey
+      by_cases hc : g.seen.contains k = true
+      · simp only [hc, if_true]; exact hx
+      · simp only [hc]
+        cases hf : g.groups.find? (fun e => isPre e.1 k) with
+        | some e => simp only [hf]; exact List.mem_append_left _ hx
+        | none =>
+          simp only [hf]
+          cases hS : g.S.find? (fun e => isPre e.1 k) with
+          | some e => simp only [hS]; exact List.mem_append_left _ hx
+          | none => simp only [hS]; exact List.mem_append_left _ hx
+    · rcases List.mem_cons.mp hx with hx | hx
+      · left; subst hx; exact hk
+      · right; exact hx
+
+/-- C17, grouping: for every schedule, every estimate of the prefix length and every list of keys (duplicates
+    included), each key ends up in a group, and every key of a group lies under the group's prefix — the region it is
+    provided with really contains it -/
+theorem groupKeys_covers (I D cur cached : Nat) (valid doSched : Bool) (order : Key) (S : Entries) (keys : List Key)
+    (k : Key) (hk : k ∈ keys) :
+    ∃ e ∈ (groupKeys I D cur cached valid doSched order S keys).groups, k ∈ e.2 ∧ isPre e.1 k = true := by
+  unfold groupKeys
+  have h0 : GInv ({ S := S } : GSt) := by
+    unfold GInv
+    exact ⟨by intro e he; simp at he, by intro k hk; simp at hk⟩
+  have ⟨⟨h1, h2⟩, hs⟩ := groupKeys_fold I D cur cached valid doSched order keys { S := S } h0
+  obtain ⟨e, he, hke⟩ := h2 k (hs k (.inr hk))
+  exact ⟨e, he, hke, h1 e he k hke⟩
+
+example : (groupKeys 3600 300 0 2 true true [] [] [[true, false, true], [true, false, false], [false, true, true]]).groups
+    = [([true, false], [[true, false, true], [true, false, false]]), ([false, true], [[false, true, true]])] := by decide
 
 end KadDHT.C17
